@@ -16,6 +16,7 @@ int verif_exc;
 /* Table lemma (RFC 1952 make_crc_table): every entry of the real table is the 8-step bit-serial division of its index
  * by the reflected polynomial 0xedb88320 -- symbolic index, so all 256 entries. */
 void l_crc32_table(void) {
+  C10_TABLE_INIT();
   uint8_t in_i;
   uint32_t t;
   C10_CRC32_TABLE_ENTRY(t, in_i);
@@ -26,6 +27,7 @@ void l_crc32_table(void) {
 /* crc32 of a buffer of symbolic length with a symbolic seed: the call continues the specification run that starts in
  * register INIT(seed) (= seed ^ 0xffffffff, RFC 1952 update_crc). */
 void h_crc32(void) {
+  C10_TABLE_INIT();
   size_t in_size;
   uint32_t in_cs;
   const void* data;
@@ -37,6 +39,7 @@ void h_crc32(void) {
 
 /* one-argument form: the default seed is the RFC's start value 0, so the result is crc(buf, len) */
 void l_crc32_default(void) {
+  C10_TABLE_INIT();
   size_t in_size;
   C10_BUFFER(data, in_size);
   __CPROVER_assert(X_CRC32_DEFAULT_SEED == C10_CRC32_START, "default seed of crc32 is the RFC 1952 start value 0");
@@ -51,6 +54,7 @@ void l_crc32_default(void) {
  * (side condition ~~x == x), so after both calls the run has consumed a then b -- i.e. a||b -- and the second result is
  * what the specification returns for a||b from the original seed. */
 void l_crc32_chain(void) {
+  C10_TABLE_INIT();
   size_t in_na, in_nb;
   uint32_t in_seed;
   C10_BUFFER(a, in_na);
